@@ -234,6 +234,10 @@ def _fake_urlretrieve(url, filename=None, *a, **k):
     lc = _ctx()
     if lc is None:
         raise HarnessError("network access outside a loader context: %r" % (url,))
+    if lc.net_calls >= lc.world.max_net_calls:
+        # horizon: a loader that keeps retrying for ever would make the execution space infinite
+        lc.horizon_exceeded = True
+        raise Killed()
     lc.boundary(("net", url))
     ans = lc.world.network_answer(lc, url)
     lc.net_calls += 1
@@ -311,6 +315,7 @@ class Loader:
         self.steps = 0
         self.thread = None
         self.tmpnames = {}
+        self.horizon_exceeded = False
 
     def rel(self, p):
         """path below the data home with this loader's random temp names replaced by tmp#k"""
@@ -373,6 +378,7 @@ class World:
         install()
         self.home = home
         self.write_buffer = write_buffer
+        self.max_net_calls = 12
         if not any(home.startswith(r) for r in SCRATCH_ROOTS):
             SCRATCH_ROOTS.append(home)
         self.back = threading.Semaphore(0)
